@@ -20,7 +20,7 @@ def _clear_caches(ns_):
 PROPERTY = "C09"
 PL_OPS = ["evaluate", "evaluate_propositions", "assume", "reduce", "negate", "errors", "flatten", "to_json", "to_text", "to_short", "to_ge_polyhedron", "solve"]
 CFG_OPS = ["select", "add", "default_prios", "leafs", "ge_polyhedron", "to_json", "evaluate"]
-REGIONS = ["subclass-leaves", "history:add", "history:assume", "history:negate", "history:reduce", "history-cfg", "history-plog"] + ["op:" + o for o in PL_OPS] + ["cfg-op:" + o for o in CFG_OPS] + ["interpretation-names-compound-id", "interpretation-names-top-id", "cache-key-equal-possible"]
+REGIONS = ["prefixed-subproposition", "subclass-leaves", "history:add", "history:assume", "history:negate", "history:reduce", "history-cfg", "history-plog"] + ["op:" + o for o in PL_OPS] + ["cfg-op:" + o for o in CFG_OPS] + ["interpretation-names-compound-id", "interpretation-names-top-id", "cache-key-equal-possible"]
 BOUNDS = ("one call of each public operation from a freshly built model (PL family, <=7 compounds) or configurator (CFG family), with symbolic thresholds/signs/boxes "
           "where the operation does not cross the Rust encoder, and symbolic arguments: dictionaries over ALL ids (leaves, sub-propositions, the top id) with symbolic "
           "presence flags and values; a deep snapshot (class, id, generated flag, bounds, value, sign, prio, default, children) is compared before/after. "
@@ -52,6 +52,9 @@ def instantiations(tier, seed):
             out.append({"part": "frame", "kind_": "plog", "model": m, "op": op})
             if op in ("evaluate", "assume", "evaluate_propositions", "reduce") and k % 2 == 0:
                 out.append({"part": "frame", "kind_": "plog", "model": F.with_subclass_leaves(m), "op": op})
+            if op in ("negate", "reduce", "assume", "evaluate", "flatten", "to_json") and not conc:
+                # sub-propositions whose own variable was given as an explicit puan.variable with constant bounds
+                out.append({"part": "frame", "kind_": "plog", "model": _prefix(m, k), "op": op})
     for k, c in enumerate(cfg.cfg_family(tier, seed, n_quick=2, n_thorough=40)[:(6 if tier == "quick" else 200)]):
         for op in (CFG_OPS if (tier == "thorough" or k < 3) else [CFG_OPS[k % len(CFG_OPS)]]):
             out.append({"part": "frame", "kind_": "cfg", "model": c, "op": op})
@@ -71,6 +74,16 @@ def instantiations(tier, seed):
         out.append({"kind": "mutant", "mutant": mu, "part": "frame", "kind_": "plog", "op": "flatten",
                     "model": F.symbolize(F.AL(2, F.a(), F.i(), F.AL(1, F.b(), F.c(), id="B", sign=1), id="A", sign=1))})
     return out
+
+
+def _prefix(spec, k):
+    s = copy.deepcopy(spec)
+    n = 0
+    for c in pl.compounds(s):
+        if c.get("id") and c["t"] != "Not":
+            c["vb"] = [[1, 1], [0, 0], [0, 1]][(k + n) % 3]
+            n += 1
+    return s
 
 
 def _leafnodes(spec, acc=None):
@@ -311,6 +324,8 @@ def run_inst(spec, run):
         run.region(("cfg-op:" if iscfg else "op:") + op)
         if any(v.get("sub") for v in _leafnodes(model_spec)):
             run.region("subclass-leaves")
+        if any(c.get("vb") in ([1, 1], [0, 0]) for c in pl.compounds(model_spec)):
+            run.region("prefixed-subproposition")
         dec = d["arg"].decided
         if any(dec.get(c) for c in cids):
             run.region("interpretation-names-compound-id")
